@@ -9,6 +9,22 @@ func norm(s string) string { return strings.Join(strings.Fields(s), " ") }
 
 func factsSuite(o *out, suite pkgFiles) {
 	factsResolver(o, suite)
+	factsLimiter(o, suite)
+}
+
+// factsLimiter: which network filters of the inbound listener getLimiterPolicy reads.
+func factsLimiter(o *out, suite pkgFiles) {
+	scope := ".other"
+	b := bodyNorm(suite.findFunc("", "getLimiterPolicy"))
+	switch {
+	case strings.Contains(b, "for _, lis := range lds.NetworkFilters { if lis.InlineRouteConfig != nil { tpfs[lis.RoutePort] = lis.InlineRouteConfig.TokensPerFill } }"):
+		scope = ".all"
+	case strings.Contains(b, "for _, lis := range lds.NetworkFilters { if lis.FilterType == xdsresource.NetworkFilterTypeHTTP && lis.InlineRouteConfig != nil { tpfs[lis.RoutePort] = lis.InlineRouteConfig.TokensPerFill } }"):
+		scope = ".httpOnly"
+	default:
+		o.note("limiter: getLimiterPolicy body %q", b)
+	}
+	o.line("def limiterScope : Handlers.LimiterScope := %s", scope)
 }
 
 func factsResolver(o *out, suite pkgFiles) {
